@@ -27,6 +27,9 @@ def load(name='digital_rf'):
     pkg.__verif_synth__ = 'stub'
     sys.modules[name] = pkg
     ext = ExtStub(); sys.modules[name + '._py_rf_write_hdf5'] = ext; pkg._py_rf_write_hdf5 = ext
+    if not os.path.exists(os.path.join(PYPKG, '_version.py')):
+        v = types.ModuleType(name + '._version'); v.__version__ = v.version = '0+verif'; v.__version_tuple__ = v.version_tuple = (0, 0, 'verif')
+        sys.modules[name + '._version'] = v
     import logging
     logging.disable(logging.CRITICAL)
     exec(compile(open(pkg.__file__).read(), pkg.__file__, 'exec'), pkg.__dict__)
